@@ -5,10 +5,15 @@ use serde_json::{json, Value};
 
 #[derive(Clone, Debug)]
 pub enum Op {
-    /// Allocate a heap `String` with this text in `slot` (the slot must be empty).
-    New { slot: usize, text: String },
+    /// Put a heap `String` with this text into `slot` (the slot must be empty). `reuse`: take the most recently
+    /// freed buffer that is large enough (what an allocator does with a same-size request) instead of a fresh one.
+    /// The simulator owns freed buffers, so address reuse is decided by the scenario, not by malloc's state.
+    New { slot: usize, text: String, reuse: bool },
     /// Drop every result that borrows from the slot's input, then the input itself.
     DropInput { slot: usize },
+    /// Drop every result that borrows from the slot's input, then overwrite the same `String` in place
+    /// (`clear(); push_str(..)`): the classic reused line buffer. Same object, same address, new content.
+    Refill { slot: usize, text: String },
     Parse { id: usize, slot: usize, g: String, rule: String, entry: Entry, form: Form, a: usize, b: usize, thread: usize },
     /// Repeat parse operation `of` on the very same input object.
     Reparse { id: usize, of: usize, thread: usize },
@@ -28,8 +33,9 @@ pub struct Scenario {
 impl Op {
     pub fn to_json(&self) -> Value {
         match self {
-            Op::New { slot, text } => json!({"op": "new_input", "slot": slot, "text": text}),
+            Op::New { slot, text, reuse } => json!({"op": "new_input", "slot": slot, "text": text, "reuse_freed_buffer": reuse}),
             Op::DropInput { slot } => json!({"op": "drop_input", "slot": slot}),
+            Op::Refill { slot, text } => json!({"op": "refill_input", "slot": slot, "text": text}),
             Op::Parse { id, slot, g, rule, entry, form, a, b, thread } => {
                 json!({"op": "parse", "id": id, "slot": slot, "grammar": g, "rule": rule, "entry": entry.name(), "form": form.name(), "a": a, "b": b, "thread": thread})
             }
@@ -42,8 +48,9 @@ impl Op {
         let u = |k: &str| j.get(k).and_then(|v| v.as_u64()).map(|v| v as usize);
         let s = |k: &str| j.get(k).and_then(|v| v.as_str()).map(|v| v.to_string());
         Some(match j.get("op")?.as_str()? {
-            "new_input" => Op::New { slot: u("slot")?, text: s("text")? },
+            "new_input" => Op::New { slot: u("slot")?, text: s("text")?, reuse: j.get("reuse_freed_buffer").and_then(|v| v.as_bool()).unwrap_or(true) },
             "drop_input" => Op::DropInput { slot: u("slot")? },
+            "refill_input" => Op::Refill { slot: u("slot")?, text: s("text")? },
             "parse" => Op::Parse {
                 id: u("id")?,
                 slot: u("slot")?,
@@ -102,7 +109,7 @@ fn boundaries(t: &str) -> Vec<usize> {
 
 fn build_text(rng: &mut SplitMix, g: &Grammar) -> (String, Vec<(String, usize, usize)>) {
     let k = 1 + rng.below(4);
-    let seps = ["", " ", "\n", "#", ""];
+    let seps = ["", " ", "\n", "#", "", "\n"];
     let mut text = String::new();
     let mut pieces = Vec::new();
     if rng.chance(1, 4) {
@@ -130,6 +137,24 @@ fn build_text(rng: &mut SplitMix, g: &Grammar) -> (String, Vec<(String, usize, u
         }
     }
     (text, pieces)
+}
+
+/// Cut or pad `text` to exactly `want` bytes (pieces beyond the cut are dropped): a successor of the same
+/// length lands in the same allocator size class and keeps every (address, length) key identical.
+fn fit_length(rng: &mut SplitMix, text: String, pieces: Vec<(String, usize, usize)>, want: usize) -> (String, Vec<(String, usize, usize)>) {
+    let mut t = text;
+    if t.len() > want {
+        let mut cut = want;
+        while !t.is_char_boundary(cut) {
+            cut -= 1;
+        }
+        t.truncate(cut);
+    }
+    while t.len() < want {
+        t.push(['\n', ' ', 'x', '1'][rng.below(4)]);
+    }
+    let pieces = pieces.into_iter().filter(|p| p.2 <= t.len()).collect();
+    (t, pieces)
 }
 
 /// Draw a whole scenario from `seed`. Pure: the same seed gives the same scenario in every process.
@@ -163,6 +188,7 @@ pub fn generate(seed: u64, grammars: &[Grammar]) -> Scenario {
     let mut results: Vec<(usize, usize)> = Vec::new();
     let mut last_dropped_len: Option<usize> = None;
     let mut last_stack_parse = false;
+    let mut force_parse_on: Option<usize> = None;
     while ops.len() < n_ops {
         let live_slots: Vec<usize> = (0..2).filter(|i| slots[*i].is_some()).collect();
         let total = w_parse + w_reparse + w_clone + w_new + w_dropin + w_dropres;
@@ -178,9 +204,13 @@ pub fn generate(seed: u64, grammars: &[Grammar]) -> Scenario {
         if live_slots.is_empty() {
             choice = 3;
         }
+        let forced = force_parse_on.take().filter(|s| slots[*s].is_some() && rng.chance(3, 4));
+        if forced.is_some() {
+            choice = 0;
+        }
         match choice {
             0 => {
-                let slot = live_slots[rng.below(live_slots.len())];
+                let slot = forced.unwrap_or_else(|| live_slots[rng.below(live_slots.len())]);
                 let s = slots[slot].as_ref().unwrap();
                 // mostly a rule of the grammar the text was built for; sometimes any grammar
                 let gi = if rng.chance(14, 15) { s.g } else { enabled[rng.below(enabled.len())] };
@@ -232,7 +262,21 @@ pub fn generate(seed: u64, grammars: &[Grammar]) -> Scenario {
                 if matches!(entry, Entry::Parse | Entry::ParsePartial) {
                     results.push((id, slot));
                 }
-                ops.push(Op::Parse { id, slot, g: g.name.to_string(), rule, entry, form, a, b, thread: rng.below(threads) });
+                let (gname, rule2, thread) = (g.name.to_string(), rule.clone(), rng.below(threads));
+                ops.push(Op::Parse { id, slot, g: gname.clone(), rule, entry, form, a, b, thread });
+                // twin: the same rule from the same start over a slightly shorter or longer sub-range (a result can
+                // depend on what lies just beyond its end: lookahead, EOI)
+                if form == Form::Span && rng.chance(1, 4) {
+                    let after: Vec<usize> = bs.iter().copied().filter(|x| *x > a && *x != b && (*x as isize - b as isize).abs() <= 3).collect();
+                    if !after.is_empty() {
+                        let b2 = after[rng.below(after.len())];
+                        let id2 = next_id;
+                        next_id += 1;
+                        parses.push((id2, slot));
+                        results.push((id2, slot));
+                        ops.push(Op::Parse { id: id2, slot, g: gname, rule: rule2, entry: Entry::ParsePartial, form: Form::Span, a, b: b2, thread });
+                    }
+                }
             }
             1 => {
                 if parses.is_empty() {
@@ -256,29 +300,34 @@ pub fn generate(seed: u64, grammars: &[Grammar]) -> Scenario {
             }
             3 => {
                 let slot = if slots[0].is_none() { 0 } else if slots[1].is_none() { 1 } else { rng.below(2) };
+                let gi = enabled[rng.below(enabled.len())];
+                let g = &grammars[gi];
+                let mut best = build_text(&mut rng, g);
                 if let Some(old) = slots[slot].take() {
                     last_dropped_len = Some(old.text.len());
                     parses.retain(|p| p.1 != slot);
                     results.retain(|p| p.1 != slot);
+                    // successor of exactly the same byte length in two cases out of three
+                    if rng.chance(2, 3) {
+                        best = fit_length(&mut rng, best.0, best.1, old.text.len());
+                    }
+                    if rng.chance(1, 2) {
+                        // the same String object overwritten in place
+                        ops.push(Op::Refill { slot, text: best.0.clone() });
+                        slots[slot] = Some(SimSlot { g: gi, text: best.0, pieces: best.1 });
+                        force_parse_on = Some(slot);
+                        continue;
+                    }
                     ops.push(Op::DropInput { slot });
-                }
-                let gi = enabled[rng.below(enabled.len())];
-                let g = &grammars[gi];
-                // same-length, different-content successor: the allocator then very likely hands out the same address
-                let mut best = build_text(&mut rng, g);
-                if let Some(want) = last_dropped_len {
-                    for _ in 0..6 {
-                        if best.0.len() == want {
-                            break;
-                        }
-                        let cand = build_text(&mut rng, g);
-                        if cand.0.len() == want {
-                            best = cand;
-                        }
+                } else if let Some(want) = last_dropped_len {
+                    if rng.chance(1, 2) {
+                        best = fit_length(&mut rng, best.0, best.1, want);
                     }
                 }
-                ops.push(Op::New { slot, text: best.0.clone() });
+                ops.push(Op::New { slot, text: best.0.clone(), reuse: rng.chance(4, 5) });
                 slots[slot] = Some(SimSlot { g: gi, text: best.0, pieces: best.1 });
+                // place the next operation inside the state just created
+                force_parse_on = Some(slot);
             }
             4 => {
                 let slot = live_slots[rng.below(live_slots.len())];
